@@ -34,7 +34,15 @@ theorem global_types_preserved (m o : ModuleM) (h : roundTripModule m = some o) 
     ∀ (k : Nat) (g : GlobalTyM × CExprM), m.globals[k]? = some g →
       ∃ g' : GlobalTyM × CExprM, o.globals[k]? = some g' ∧ g'.1 = g.1 :=
   let c := roundTrip_components m o h
-  ⟨c.globalsLen, c.globals⟩
+  ⟨c.globalsLen, fun k g hk => (c.globals k g hk).imp fun g' hg => ⟨hg.1, hg.2.1⟩⟩
+
+/-- constant expressions (`CExprKept`): the initialiser of every global is written with the same
+    operators, one for one and in order — same operator name, same numeric and type immediates;
+    an entity operand (`global.get`, `ref.func`) stays an operand of the same index space -/
+theorem global_initialisers_preserved (m o : ModuleM) (h : roundTripModule m = some o) :
+    ∀ (k : Nat) (g : GlobalTyM × CExprM), m.globals[k]? = some g →
+      ∃ g' : GlobalTyM × CExprM, o.globals[k]? = some g' ∧ g'.1 = g.1 ∧ CExprKept g.2 g'.2 :=
+  (roundTrip_components m o h).globals
 
 /-- exports: same number, order, names and kinds; non-function targets unchanged; function targets
     and the start function renamed by one and the same map -/
@@ -52,16 +60,53 @@ theorem exports_and_start_preserved (m o : ModuleM) (h : roundTripModule m = som
     obtain ⟨ρ, h1, h2, _⟩ := c.funcRenaming
     exact ⟨ρ, h1, h2⟩⟩
 
-/-- segments: nothing added or dropped; data payloads, modes and target memories unchanged -/
+/-- segments: nothing added or dropped; data payloads, modes and target memories unchanged, the
+    offset expression of an active data segment kept operator for operator (`CExprKept`) -/
 theorem segments_preserved (m o : ModuleM) (h : roundTripModule m = some o) :
     o.elems.length = m.elems.length ∧ o.datas.length = m.datas.length ∧
     ∀ (k : Nat) (d : DataM), m.datas[k]? = some d →
       ∃ d' : DataM, o.datas[k]? = some d' ∧ d'.bytes = d.bytes ∧
         (match d.mode with
          | .passive => d'.mode = .passive
-         | .active mem _ => ∃ off, d'.mode = .active mem off) :=
+         | .active mem o => ∃ off, d'.mode = .active mem off ∧ CExprKept o off) :=
   let c := roundTrip_components m o h
   ⟨c.elemsLen, c.datasLen, c.datas⟩
+
+/-- element segments: the `k`-th segment of the output is the `k`-th of the input — same mode
+    (active on the same table, an absent table operand meaning table 0; passive; declared), same
+    kind of items, same element type and number of expression items — and its function items are
+    the input's renamed, one by one and in order, by the *same* map that renames the function
+    operands of the exports and of the start section; the offset expression of an active segment
+    and every expression item are kept operator for operator (`CExprKept`): a table slot, an export and the start
+    section that named one function before the round trip name one function after it -/
+theorem element_segments_preserved (m o : ModuleM) (h : roundTripModule m = some o) :
+    ∃ ρ : List (Nat × Nat),
+      (∀ (k : Nat) (e : String × String × Nat), m.exports[k]? = some e → e.2.1 = "f" →
+        ∃ e' : String × String × Nat, o.exports[k]? = some e' ∧ assoc ρ e.2.2 = some e'.2.2) ∧
+      (∀ s, m.start = some s → ∃ s', o.start = some s' ∧ assoc ρ s = some s') ∧
+      ∀ (k : Nat) (e : ElemM), m.elems[k]? = some e → ∃ e' : ElemM, o.elems[k]? = some e' ∧
+        (match e.mode with
+         | .active t off => ∃ t' off', e'.mode = .active t' off' ∧ t'.getD 0 = t.getD 0 ∧ CExprKept off off'
+         | .passive => e'.mode = .passive
+         | .declared => e'.mode = .declared) ∧
+        (match e.items with
+         | .funcs fs => ∃ fs', e'.items = .funcs fs' ∧ fs'.length = fs.length ∧
+             ∀ (i f : Nat), fs[i]? = some f → ∃ f', fs'[i]? = some f' ∧ assoc ρ f = some f'
+         | .exprs ty es => ∃ es', e'.items = .exprs ty es' ∧ es'.length = es.length ∧
+             ∀ (i : Nat) (c : CExprM), es[i]? = some c → ∃ c', es'[i]? = some c' ∧ CExprKept c c') := by
+  obtain ⟨ρ, h1, h2, _, h4⟩ := (roundTrip_components m o h).funcRenaming
+  refine ⟨ρ, h1, h2, ?_⟩
+  intro k e hk
+  obtain ⟨e', he', hmode, hitems⟩ := h4 k e hk
+  refine ⟨e', he', hmode, ?_⟩
+  cases hi : e.items with
+  | funcs fs =>
+    simp only [hi] at hitems
+    obtain ⟨fs', hf, hm, hl⟩ := hitems
+    exact ⟨fs', hf, hl, fun i f hif => mapM_some_get _ _ _ hm i f hif⟩
+  | exprs ty es =>
+    simp only [hi] at hitems
+    exact hitems
 
 /-- non-vacuity: a module with an imported 64-bit shared memory, an imported function, a table,
     a global initialised by `ref.func` and an export goes through the model's round trip -/
@@ -81,6 +126,13 @@ example : (roundTripModule sample).map (·.exports) = some [("main", "f", 1), ("
 example : (roundTripModule sample).map (·.start) = some (some 1) := by decide
 example : (roundTripModule sample).map (·.globals) =
     some [(⟨"funcref", false, false⟩, [⟨"RefFunc", [.ref "f" 1]⟩])] := by decide
+
+/-- non-vacuity for the element theorem: an active segment on table 0 with two function items and a
+    declared expression segment go through the model's round trip -/
+def sampleE : ModuleM :=
+  { sample with elems := [⟨0, .active none [⟨"I32Const", [.imm "0"]⟩], .funcs [1, 0]⟩,
+                          ⟨7, .declared, .exprs "funcref" [[⟨"RefFunc", [.ref "f" 1]⟩]]⟩] }
+example : (roundTripModule sampleE).map (·.elems) = some sampleE.elems := by decide
 
 
 /-- **every function keeps its signature**: the `j`-th function of the output's function section is
